@@ -43,7 +43,7 @@ def parseLines (ls : List Line) : TokMap := parseLinesGo ls []
 
 /-- `tokens, ok := sb.Tokens[dir]` -/
 def tokensOf (m : TokMap) (d : Dir) : Option (List String) :=
-  (m.find? fun p => p.1 == d).map (·.2)
+  (m.find? fun p => decide (p.1 = d)).map (·.2)
 
 /-- `httpContext.InspectServerBlocks`: a block with `gzip` and without `errors` is given a bare
 `errors` directive (so that error pages are written inside the gzip writer) -/
@@ -114,5 +114,9 @@ def middlewareDirectives : List Dir :=
    "markdown", "browse"]
 
 def addsMiddleware (d : Dir) : Bool := middlewareDirectives.contains d
+
+/-- the handler chain (outside in) of a one-site block with directive lines `ls` -/
+def chainOf (D : List Dir) (ls : List Line) : List Dir :=
+  siteMiddleware addsMiddleware (execSeq D [{ keys := ["site"], lines := ls }]) 0 0
 
 end Casket.Exec
